@@ -9,7 +9,7 @@ Decided on traced IR with every table entry symbolic (one symbol per (column,row
   PARTIAL the value given as the ONLY entry of param_state (data_set) or params (trainable), every other
           column read from the tables, simulates like the same value given together with all other columns
           (the route C01/C02 verify against the physics): DAG identity, else 1e-6 margin query; quick:
-          geometry and capacitance keys, thorough: every node key;
+          geometry and capacitance keys, thorough: every node and edge key;
   WRITE   write_trainables stores exactly the simulated values (concrete side-check with
           pairwise distinct values - pure data movement in pandas).
 Views: compartment, branch, unequal-size branch groups, cell, named group, channel view, views
@@ -98,7 +98,8 @@ def _partial(inst, name, sel, key, sel_rows, kw, RUN, res, viol, timeout, rng):
         return jx.integrate(m8, params=[{key: p}], t_max=0.025, **kw)
     m9 = build(name); sm9 = simenc.SymModule(m9)
     base = sm9.values_from_tables(); keys9 = sm9.keys()
-    pos = [int(np.where(sm9.cols[key] == r)[0][0]) for r in sel_rows]
+    rows9 = sm9.cols[key] if key in sm9.cols else sm9.ecols[key]
+    pos = [int(np.where(rows9 == r)[0][0]) for r in sel_rows]
     def sim_full(p):
         arrs = [jnp.asarray(a) for a in base]
         kidx = keys9.index(key)
@@ -299,9 +300,9 @@ def run_instance(inst):
         # --------------------------------------------------------- PARTIAL: the value arrives as the ONLY entry of param_state / params
         # (every other column is read from the tables), against the all-columns-through-param_state route that C01/C02
         # verify against the physics.  Catches code that decides from *which keys are present* what to recompute.
-        if single and kind == "node" and (key in ("radius", "length", "axial_resistivity", "capacitance") or not quick):
+        if single and ((kind == "node" and key in ("radius", "length", "axial_resistivity", "capacitance")) or not quick):
             try:
-                _partial(inst, name, sel, key, sel_rows, kw, RUN, res, viol, timeout, rng)
+                _partial(inst, name, sel, key, [int(r) for r in sel_rows], kw, RUN, res, viol, timeout, rng)
             except interp.NotEncodable as ex:
                 res["inconclusive"].append({"instance": inst, "query": "PARTIAL", "reason": str(ex)[:120]})
     # ------------------------------------------------------------- WRITE (concrete side-check)
